@@ -130,7 +130,7 @@ theorem AOut.transfer {s t : Srv} {c : Nat} {req : Req} {s' : Srv} {r : HRes} (h
 theorem HandleHandshake_spec (s : Srv) (c : Nat) (req : Req) :
     SameFrame s (HandleHandshake s c req).1 ∧ (∀ c', c' ≠ c → (HandleHandshake s c req).1.ctl c' = s.ctl c') ∧
     AOut s c req (HandleHandshake s c req).1 (HandleHandshake s c req).2 ∧
-    ((HandleHandshake s c req).2 ≠ .err → s.env.bl (s.ipOf c) = false ∧ s.banned (s.ipOf c) = false) := by
+    ((HandleHandshake s c req).2 ≠ .err → s.env.blocked (s.ipOf c) = false ∧ s.banned (s.ipOf c) = false) := by
   have refl : SameFrame s s := ⟨rfl, rfl, rfl, rfl, rfl, rfl, rfl, fun _ h => h⟩
   have herr : AOut s c req s .err := AOut.err rfl rfl rfl (Or.inl rfl)
   unfold HandleHandshake
@@ -140,7 +140,7 @@ theorem HandleHandshake_spec (s : Srv) (c : Nat) (req : Req) :
     split
     · exact ⟨refl, fun _ _ => rfl, herr, fun h => absurd rfl h⟩
     · rename_i hban
-      have hgate : s.env.bl (s.ipOf c) = false ∧ s.banned (s.ipOf c) = false := by
+      have hgate : s.env.blocked (s.ipOf c) = false ∧ s.banned (s.ipOf c) = false := by
         simp only [isAllowed, isBanned, Bool.not_not, Bool.not_eq_true] at hbl hban
         exact ⟨hbl, hban⟩
       split
@@ -397,7 +397,7 @@ theorem ensureCtl_spec (s : Srv) (c : Nat) :
 
 /-- what entitles `c` to be treated as client `x`, in terms of the request and the response written -/
 def Jr (s : Srv) (c : Nat) (req : Req) (r : RespObs) (n' x : Nat) : Prop :=
-  s.env.bl (s.ipOf c) = false ∧ s.banned (s.ipOf c) = false ∧
+  s.env.blocked (s.ipOf c) = false ∧ s.banned (s.ipOf c) = false ∧
   ((req.first = true ∧ x = s.nClients ∧ n' = x + 1 ∧ (r = .new x ∨ r = .none)) ∨
    (req.first = false ∧ req.k = .idx x ∧ x < s.nClients ∧ flagsOK s.now (s.env.cl x) = true ∧
       ∃ n, req.resp = .hmac (.client x) (some n) ∧ pend (s.ctl c) = some n ∧ (r = .ok ∨ r = .none)))
@@ -541,7 +541,7 @@ theorem handleHandshake_spec (s : Srv) (c : Nat) (ty : Ty) (req : Req) :
 
 /-- event-level justification (the model-side twin of `Spec.justified`) -/
 def Jm (s : Srv) (e : Event) (r : RespObs) (n' c x : Nat) : Prop :=
-  s.env.bl (s.ipOf c) = false ∧ s.banned (s.ipOf c) = false ∧
+  s.env.blocked (s.ipOf c) = false ∧ s.banned (s.ipOf c) = false ∧
   ((∃ ty, e = .fc c ty ∧ x = s.nClients ∧ n' = x + 1 ∧ (r = .new x ∨ r = .none)) ∨
    (∃ ty key nr n, e = .hs c ty (.idx x) (.hmac key nr) ∧ x < s.nClients ∧ flagsOK s.now (s.env.cl x) = true ∧
       key = .client x ∧ s.env.resolveN nr = some n ∧ pend (s.ctl c) = some n ∧ (r = .ok ∨ r = .none)))
@@ -676,6 +676,9 @@ theorem stepCore_spec (s : Srv) (e : Event) : StepSpec s e (stepCore s e).1 (ste
     simp [stepCore, upd_other _ _ _ _ this, h]
   | bl ip => exact StepSpec.of_same fr rfl rfl rfl rfl (Or.inl rfl) (fun _ _ h => h) (fun _ h => by cases h) rfl
   | unbl ip => exact StepSpec.of_same fr rfl rfl rfl rfl (Or.inl rfl) (fun _ _ h => h) (fun _ h => by cases h) rfl
+  | blr g => exact StepSpec.of_same fr rfl rfl rfl rfl (Or.inl rfl) (fun _ _ h => h) (fun _ h => by cases h) rfl
+  | unblr g => exact StepSpec.of_same fr rfl rfl rfl rfl (Or.inl rfl) (fun _ _ h => h) (fun _ h => by cases h) rfl
+  | restart => exact StepSpec.of_same fr rfl rfl rfl rfl (Or.inl rfl) (fun _ _ h => h) (fun _ h => by cases h) rfl
   | refill ip => exact StepSpec.of_same fr rfl rfl rfl rfl (Or.inl rfl) (fun _ _ h => h) (fun _ h => by cases h) rfl
   | exp k => exact StepSpec.of_same fr rfl rfl rfl rfl (Or.inl rfl) (fun _ _ h => h) (fun _ h => by cases h) rfl
   | del k => exact StepSpec.of_same fr rfl rfl rfl rfl (Or.inl rfl) (fun _ _ h => h) (fun _ h => by cases h) rfl
@@ -736,6 +739,9 @@ theorem track_cases (g : Env) (now nc : Nat) (e : Event) (r : RespObs) :
   | unban ip => exact Or.inr (Or.inr ⟨rfl, rfl, rfl⟩)
   | bl ip => exact Or.inr (Or.inr ⟨rfl, rfl, rfl⟩)
   | unbl ip => exact Or.inr (Or.inr ⟨rfl, rfl, rfl⟩)
+  | blr g => exact Or.inr (Or.inr ⟨rfl, rfl, rfl⟩)
+  | unblr g => exact Or.inr (Or.inr ⟨rfl, rfl, rfl⟩)
+  | restart => exact Or.inr (Or.inr ⟨rfl, rfl, rfl⟩)
   | refill ip => exact Or.inr (Or.inr ⟨rfl, rfl, rfl⟩)
   | exp k => right; right; simp only [Env.track]; split <;> exact ⟨rfl, rfl, rfl⟩
   | del k => right; right; simp only [Env.track]; split <;> exact ⟨rfl, rfl, rfl⟩
@@ -772,6 +778,9 @@ theorem track_xban (g : Env) (now nc : Nat) (e : Event) (r : RespObs) (ip : Nat)
     · rename_i hh; exact Or.inr ⟨h, by simpa using fun h' => hh h'.symm⟩
   | bl ip' => exact Or.inr ⟨h, by simp⟩
   | unbl ip' => exact Or.inr ⟨h, by simp⟩
+  | blr g => exact Or.inr ⟨h, by simp⟩
+  | unblr g => exact Or.inr ⟨h, by simp⟩
+  | restart => exact Or.inr ⟨h, by simp⟩
   | refill ip' => exact Or.inr ⟨h, by simp⟩
   | exp k => right; refine ⟨?_, by simp⟩; simp only [Env.track] at h; split at h <;> exact h
   | del k => right; refine ⟨?_, by simp⟩; simp only [Env.track] at h; split at h <;> exact h
@@ -1011,7 +1020,7 @@ theorem obs_ban (s : Srv) (ip : Nat) :
   simp only [obsState, getD_map_range]
 
 theorem obs_bl (s : Srv) (ip : Nat) :
-    (obsState s).bls.getD ip false = if ip < s.nIps then s.env.bl ip else false := by
+    (obsState s).bls.getD ip false = if ip < s.nIps then s.env.blocked ip else false := by
   simp only [obsState, getD_map_range]
 
 theorem obs_lens (s : Srv) : (obsState s).conns.length = s.nConns ∧ (obsState s).lookups.length = s.nClients := by
@@ -1360,6 +1369,9 @@ theorem step_sound {s : Srv} (R : RegSound s) (e : Event) : RegSound (Tunnox.C03
     | unban ip => exact R
     | bl ip => exact R
     | unbl ip => exact R
+    | blr g => exact R
+    | unblr g => exact R
+    | restart => exact R
     | refill ip => exact R
     | exp k => exact R
     | del k => exact R
